@@ -33,8 +33,10 @@ class Config(collections.namedtuple('Config', 'impl hashseed iro asan')):
         e['ZISIM_IMPL'] = self.impl
         e['PYTHONHASHSEED'] = self.hashseed
         e['PYTHONDONTWRITEBYTECODE'] = '1'
-        if self.iro == 'strict':
+        if self.iro in ('strict', 'strict-track'):
             e['ZOPE_INTERFACE_STRICT_IRO'] = '1'
+        if self.iro in ('track', 'strict-track'):
+            e['ZOPE_INTERFACE_TRACK_BAD_IRO'] = '1'
         elif self.iro == 'legacy':
             e['ZOPE_INTERFACE_USE_LEGACY_IRO'] = '1'
         if self.asan == 'valgrind':
